@@ -371,11 +371,17 @@ func (e *SpecEnv) ident(x *spec.Ident) Val {
 	if strings.HasPrefix(name, "$i") && len(name) > 2 && e.fr != nil {
 		var k int
 		if _, err := fmt.Sscanf(name[2:], "%d", &k); err == nil {
-			for _, li := range e.fr.loops {
-				if li.ordinal == k && li.idxPhi != nil {
-					if v, ok := e.fr.env[li.idxPhi]; ok {
-						return Val{T: types.Typ[types.Int], Term: fmt.Sprintf("(+ %s 1)", v.Term)}
+			// the enclosing loop may live in a calling frame when this frame is a helper executed in place
+			for f := e.fr; f != nil; f = f.parent {
+				for _, li := range f.loops {
+					if li.ordinal == k && li.idxPhi != nil {
+						if v, ok := f.env[li.idxPhi]; ok {
+							return Val{T: types.Typ[types.Int], Term: fmt.Sprintf("(+ %s 1)", v.Term)}
+						}
 					}
+				}
+				if f.flatOwner == nil {
+					break
 				}
 			}
 			return e.fail(x, "%s: no such range-over-slice loop (or not yet entered)", name)
